@@ -61,6 +61,12 @@ def build_pool(seed: int):
             items.append((f"gen_{c.vendor}_{c.layout}_body", c.vendor.capitalize(), "body", c.body, c))
             items.append((f"gen_{c.vendor}_{c.layout}_frame", c.vendor.capitalize(), "frame", c.frame, c))
     genuine = [it for it in items]
+    # genuine frames whose three LLC octets read like the header of an (empty) list of another meter: whoever ignores the LLC octets
+    # accepts them as a frame, whoever reads lists may accept them as a bare body - several decoders accept, the remembered one decides
+    for gen in (dlms_gen.aidon_case, dlms_gen.kaifa_case, dlms_gen.kamstrup_case):
+        c = gen(rng)
+        for llc in (b"\x01\x00\x00", b"\x02\x00\x0f"):
+            items.append((f"junk_llc_reads_{llc.hex()}_{c.vendor}", None, "junk", llc + c.frame[3:], None))
     for i in range(3):
         items.append((f"junk_random_{i}", None, "junk", rng.randbytes(rng.choice((1, 5, 40))), None))
     for i in range(6):
